@@ -1050,6 +1050,14 @@ pub fn scenario(case: &Case) -> CheckResult {
                 if case.handover { " (and had handed that listener over)" } else { "" }
             ),
             Probe::Refused(e) if case.handover => fail!("C10/handed-over-listener-refuses", "after the hand-over and the SoftStop of the old worker, a connection to {a} fails ({e}) although the harness holds the listening descriptor"),
+            // without a hand-over the worker holds the only descriptor of each listening socket: "takes no new
+            // connection after acknowledging the stop" means the socket is closed by then. A socket left open
+            // (and no longer polled) keeps completing handshakes into its backlog: clients connect and are never
+            // answered - with several workers on one address (SO_REUSEPORT) a share of all new connections
+            Probe::NoAnswer(what) if !case.handover => fail!(
+                format!("C10/listener-still-open-after-stop:{}", if Some(*a) == tcp_addr { "tcp" } else { "http" }),
+                "a connection to {a} made after the worker acknowledged SoftStop was accepted by the kernel and never answered ({what}): the worker still holds the listening socket open"
+            ),
             _ => {}
         }
     }
@@ -1094,7 +1102,7 @@ pub fn scenario(case: &Case) -> CheckResult {
 }
 
 pub fn rule() -> &'static str {
-    "one fresh live worker per scenario with 1..4 HTTP listeners (30%: plus a TCP listener) that it binds itself or (50%) receives over the SCM socket at its start, one cluster and one HTTP/1.1 mock backend per listener; 1..6 client requests (own connections, keyed bodies up to 70 KB (c': 12 MB), Content-Length requests, Content-Length or chunked responses) are brought into a generated phase and the harness waits until each is observably there: (a) head and a part of the body sent, rest sent 0..300 ms after the stop, (b) whole request at the backend which answers 50..800 ms after the stop, (c) response head and first piece at the client, other pieces spread over 200..900 ms after the stop, (d) Expect: 100-continue head at the backend, interim 100 sent 20..500 ms after the stop, then body and 200, (c') a 6..12 MB response written at once while the client (64 KiB receive buffer) stops reading after the first bytes and resumes 50..600 ms after the stop, (e) finished request on an idle keep-alive connection; 30% of the requests come second on their connection after a small complete exchange. Then SoftStop, or ReturnListenSockets + receive_listeners on the SCM socket + SoftStop. Oracle: (1) every request of (a)-(d), (c') gets status 200 with its exact body, the backend got the exact request body once, on the right backend; (2) 0..n Processing notices and exactly one final Ok for the SoftStop id, and that Ok is not read before the last backend began to write the last piece of its in-flight response (a lower bound of the moment the worker can have finished; how long before the client had its last byte is measured as a class, not judged: written bytes travel on in socket buffers); (3) the worker thread ends within 3 s of the last response; (4) after the first acknowledgement connections to every listener are refused or get no answer and no probe request reaches a backend; with a hand-over every listener address comes out of the SCM socket with the same kind, getsockname equal to the address, the descriptor accepts a connection made to the address, and connections are never refused; (5) no worker panic. A failure is re-run twice on fresh workers and reported only if it reproduces. Non-trivial: >= 2 requests in flight at the stop or a hand-over of >= 2 listeners."
+    "one fresh live worker per scenario with 1..4 HTTP listeners (30%: plus a TCP listener) that it binds itself or (50%) receives over the SCM socket at its start, one cluster and one HTTP/1.1 mock backend per listener; 1..6 client requests (own connections, keyed bodies up to 70 KB (c': 12 MB), Content-Length requests, Content-Length or chunked responses) are brought into a generated phase and the harness waits until each is observably there: (a) head and a part of the body sent, rest sent 0..300 ms after the stop, (b) whole request at the backend which answers 50..800 ms after the stop, (c) response head and first piece at the client, other pieces spread over 200..900 ms after the stop, (d) Expect: 100-continue head at the backend, interim 100 sent 20..500 ms after the stop, then body and 200, (c') a 6..12 MB response written at once while the client (64 KiB receive buffer) stops reading after the first bytes and resumes 50..600 ms after the stop, (e) finished request on an idle keep-alive connection; 30% of the requests come second on their connection after a small complete exchange. Then SoftStop, or ReturnListenSockets + receive_listeners on the SCM socket + SoftStop. Oracle: (1) every request of (a)-(d), (c') gets status 200 with its exact body, the backend got the exact request body once, on the right backend; (2) 0..n Processing notices and exactly one final Ok for the SoftStop id, and that Ok is not read before the last backend began to write the last piece of its in-flight response (a lower bound of the moment the worker can have finished; how long before the client had its last byte is measured as a class, not judged: written bytes travel on in socket buffers); (3) the worker thread ends within 3 s of the last response; (4) after the first acknowledgement connections to every listener are refused (the worker held the only descriptor of each listening socket and must have closed it) and no probe request reaches a backend; with a hand-over every listener address comes out of the SCM socket with the same kind, getsockname equal to the address, the descriptor accepts a connection made to the address, and connections are never refused; (5) no worker panic. A failure is re-run twice on fresh workers and reported only if it reproduces. Non-trivial: >= 2 requests in flight at the stop or a hand-over of >= 2 listeners."
 }
 
 /// child-process entry: run this shard's scenarios
